@@ -405,7 +405,36 @@ def run_row(c, mods):
         etok = e if isinstance(e, str) and e.startswith("E:") else canon(e)
         if tok != etok:
             bad(n, "op %s on row %s -> %s expected %s" % (op, exp, tok, etok))
-    return {"out": " ".join(outs), "fail": fail}
+    r = {"out": " ".join(outs), "fail": fail}
+    req = row_request(c)
+    if req:
+        r["req"] = req
+    return r
+
+
+def row_request(c):
+    """request line for the Lean M-ROW driver (integer values, none/neg/dbl processors)"""
+    procs = c.get("procs")
+    if procs and any(p == "str" for p in procs):
+        return None
+    ptok = "N" if not procs else ".".join({"none": "n", "neg": "g", "dbl": "d"}[p] for p in procs)
+    toks = []
+    for op in c["ops"]:
+        n = op[0]
+        if n == "get":
+            toks.append("get:%d" % op[1])
+        elif n == "slice":
+            toks.append("slice:%s:%s:%s" % tuple("N" if x is None else str(x) for x in op[1:4]))
+        elif n in ("attr", "map"):
+            toks.append("%s:%s" % (n, op[1]))
+        elif n == "in":
+            toks.append("in:%d" % op[1])
+        elif n == "cmp":
+            toks.append("cmp:%s" % (".".join(str(x) for x in op[1]) or "-"))
+        else:
+            toks.append(n)
+    row = c["rows"][0]
+    return "row %d %s %s %s" % (len(c["keys"]), ptok, ".".join(str(x) for x in row) or "-", " ".join(toks))
 
 
 _SQL = {}
